@@ -10,7 +10,7 @@ from vlib import common as C
 from vlib import ipcdeath as D
 
 ID = "C03"
-EXTRA_COQ_TARGETS = ["IpcDeathProofs", "IpcDeathProofs2"]
+EXTRA_COQ_TARGETS = ["IpcDeathProofs", "IpcDeathProofs2", "IpcDeathProofs3"]
 
 
 def prebuild():
@@ -46,6 +46,7 @@ def run(ctx):
     preds = _model(model, queries) if queries else []
     sweeps = _model(model, ["sweep %s %d" % (tr, sc) for tr in ("shm", "sock") for sc in range(5)])
     cuts, kinds, stalls, dirs_left, unreachable, hangs, stats_leak = {}, {}, 0, 0, 0, 0, 0
+    evq_cases, closed_retry_cases, midreq_cases, stall_viol = {}, {}, 0, 0
     for i, c in enumerate(cases):
         lines, crash = results[i]
         kind = c.split()[0]
@@ -87,6 +88,17 @@ def run(ctx):
             cl = " ".join(info.get("cut", "cut ?").split()[1:2])
             cuts[cl] = cuts.get(cl, 0) + 1
             stalls += 1 if info.get("stall_ms", 0) > 0 else 0
+            if info.get("evq", -1) > 0 or info.get("notifiers", 0) > 0:
+                key = c.split()[1] + (" notifier-bytes-outstanding" if info.get("notifiers", 0) > 0 else "")
+                evq_cases[key] = evq_cases.get(key, 0) + 1
+            if kind == "cdeathx":
+                closed_retry_cases[c.split()[5]] = closed_retry_cases.get(c.split()[5], 0) + 1
+                midreq_cases += 1
+            # bounded stall (coq: dead_client_stall_bounded): the survivor server's library sleeps for the dead client
+            nfail = sum(1 for l in lines if l.startswith("note response_send") or l.startswith("note event_send"))
+            if v is None and info.get("stall_ms", 0) > nfail * 1000:
+                v = ("impl-monitor", "the server slept %d ms for the dead client: more than FC_RETRIES*FC_SLEEP_MS = 1000 ms per "
+                     "failed send (%d)" % (info.get("stall_ms", 0), nfail), {})
             if info.get("dlog") == "AD" and info.get("census", {}).get("active") == "2":
                 stats_leak += 1
             res.add_case(c, bool(info.get("dlog")))
@@ -102,7 +114,8 @@ def run(ctx):
                           {"script": ["sweep"], "model": s})
     res.rule = ("crash points: {shm, socket} x client scenario {connect; +3 sends; +sendv_recv; +events queued; +disconnect} x "
                 "k-th system call of the client (1..80, 0 = own exit) x schedule policy {server runs only while the client "
-                "is blocked | also after every client call} x {fresh | stale poll result at the death}; every prefix 0..24 of "
+                "is blocked | also after every client call} x {fresh | stale poll result at the death}; the same with connection_closed() asking 1..3 times to be called again and the bystander mid-request at the "
+                "death (cdeathx); every prefix 0..24 of "
                 "the handshake request x {fresh, stale}; server killed at its k-th system call (0..95) x client timeout "
                 "{-1, 300[, 5000]}, and the same with qb_ipcc_disconnect as the client's only call after the death; quick tier: all k for scenario 4 under two policies and for the server with timeout -1, "
                 "every 2nd/3rd k (seeded offset) for the rest; thorough: everything.  A case is non-trivial when the "
@@ -110,6 +123,9 @@ def run(ctx):
     res.samples = [{"script": [c]} for c in cases[:2] + cases[-2:]]
     res.extra = {"case_kinds": kinds, "cut_classes_seen": cuts, "tree_carries_fix_C03_recv": fixed,
                  "model_sweeps": sweeps,
+                 "dying_client_had_events_queued_at_the_cut": evq_cases,
+                 "closed_callback_asked_for_rerun_times": closed_retry_cases,
+                 "cases_with_bystander_mid_request_at_the_death": midreq_cases,
                  "observations_not_part_of_C03": {
                      "cases_where_server_slept_in_connect_on_send_for_the_dead_client": stalls,
                      "stats_active_connections_left_incremented_after_failed_response": stats_leak,
